@@ -203,7 +203,8 @@ theorem c07_assert_length_greater_equal : Correct "assert_length_greater_equal" 
 
 theorem c07_assert_is_instance : Correct "assert_is_instance" cond_assert_is_instance := by
   refine correct_of _ _ _ rfl fun c _ => ?_
-  show evalOutcome (eval c (.not_ (.isinstance (.value .left) widenExpr))) = _
+  have hcond : cond_assert_is_instance = .not_ (.isinstance (.value .left) widenExpr) := rfl
+  rw [hcond]
   obtain ⟨w, hw, hv⟩ := eval_widen c
   simp only [eval, hw, Ctx.side, hv]
   cases h : pyIsInstance c.left.v (widenCls c.right.v) with
@@ -212,7 +213,8 @@ theorem c07_assert_is_instance : Correct "assert_is_instance" cond_assert_is_ins
 
 theorem c07_assert_not_is_instance : Correct "assert_not_is_instance" cond_assert_not_is_instance := by
   refine correct_of _ _ _ rfl fun c _ => ?_
-  show evalOutcome (eval c (.isinstance (.value .left) widenExpr)) = _
+  have hcond : cond_assert_not_is_instance = .isinstance (.value .left) widenExpr := rfl
+  rw [hcond]
   obtain ⟨w, hw, hv⟩ := eval_widen c
   simp only [eval, hw, Ctx.side, hv]
   cases h : pyIsInstance c.left.v (widenCls c.right.v) with
